@@ -2,6 +2,7 @@
 
 import ast
 
+from . import flagsrule
 from ..base import AnalysisError, Defs, U, bool_guards, formula, guards_formula, implies, own_nodes, stmts, walk_guarded
 
 
@@ -175,8 +176,10 @@ def run(repo, res):
     res.rule("R03.2", "the forced pass stores exactly the violated bound t[c] (+) eps (possibly strengthened by nextafter) into the parent's slot")
     res.rule("R03.3", "after the least-squares loop the only stores to the time vector index the edge's parent")
     res.rule("R03.4", "node_moments / mean_var report fixed nodes at their constraint with zero variance and overwrite only free nodes")
+    res.rule("R03.5", "sample (fixed) status is never decided by comparing the whole node-flags word: every read of nodes_flags / .flags is a bitwise test or a whole-column move (samples may carry further flag bits, e.g. tsinfer's historical-sample bit)")
     r031(repo, res)
     r032(repo, res)
+    flagsrule.run(repo, res, "R03.5")
     f, ls, forced, tvar = kernel_parts(repo)
     e = U(forced.target)
     p, c = edge_vars(forced.body, e)
@@ -192,7 +195,7 @@ def run(repo, res):
     r034(repo, res)
 
 
-VARIANTS = [
+VARIANTS = flagsrule.VARIANTS_C03 + [
     dict(name="fixed-child-moved", mod="util", expect="fire", rule="R03.1", old="                elif nodes_fixed[c] and not nodes_fixed[p]:\n                    edges_cavity[e, 0] = 0\n                    edges_cavity[e, 1] = adjustment", new="                elif nodes_fixed[c] and not nodes_fixed[p]:\n                    edges_cavity[e, 0] = -adjustment / 2\n                    edges_cavity[e, 1] = adjustment / 2"),
     dict(name="fixed-test-swapped", mod="util", expect="fire", rule="R03.1", old="                elif not nodes_fixed[c] and nodes_fixed[p]:\n                    edges_cavity[e, 0] = -adjustment\n                    edges_cavity[e, 1] = 0", new="                elif not nodes_fixed[c] and nodes_fixed[p]:\n                    edges_cavity[e, 0] = 0\n                    edges_cavity[e, 1] = adjustment"),
     dict(name="slots-swapped-at-application", mod="util", expect="fire", rule="R03.1", old="            nodes_time[c] += edges_cavity[e, 0]\n            nodes_time[p] += edges_cavity[e, 1]", new="            nodes_time[c] += edges_cavity[e, 1]\n            nodes_time[p] += edges_cavity[e, 0]"),
